@@ -1033,6 +1033,51 @@ impl Described for IntlOpen {
     }
 }
 
+// plain (ASCII) renames under deny_unknown_fields: the accepted list must show the keys, not the identifiers
+src_text! { PAGED_SRC,
+#[derive(Deserr, Debug)]
+#[deserr(deny_unknown_fields)]
+pub struct Paged {
+    #[deserr(rename = "q")]
+    pub query: String,
+    #[deserr(rename = "per_page", default = 20)]
+    pub limit: u8,
+    #[deserr(default)]
+    pub offset: Option<u8>,
+    #[deserr(rename = "sortBy", default)]
+    pub sort: Option<Color>,
+}
+}
+impl ToModel for Paged {
+    fn to_model(&self) -> M {
+        M::Struct {
+            name: "Paged".into(),
+            fields: vec![
+                ("query".into(), self.query.to_model()),
+                ("limit".into(), self.limit.to_model()),
+                ("offset".into(), self.offset.to_model()),
+                ("sort".into(), self.sort.to_model()),
+            ],
+        }
+    }
+}
+impl Described for Paged {
+    fn ty() -> Ty {
+        let mut limit = fld("limit", "per_page", <u8>::ty());
+        limit.default = Some(M::Int(20));
+        let mut offset = fld("offset", "offset", <Option<u8>>::ty());
+        offset.default = Some(M::None);
+        let mut sort = fld("sort", "sortBy", <Option<Color>>::ty());
+        sort.default = Some(M::None);
+        Ty::Struct(Arc::new(StructTy {
+            name: "Paged".into(),
+            fields: vec![fld("query", "q", Ty::Str), limit, offset, sort],
+            deny: Deny::Default,
+            validate: None,
+        }))
+    }
+}
+
 pub fn hand_entries() -> Vec<(Entry, bool)> {
     // (entry, modelled by the reference interpreter)
     vec![
@@ -1055,6 +1100,8 @@ pub fn hand_entries() -> Vec<(Entry, bool)> {
         (Entry::generic::<(Strict, Vec<Camel>)>("(Strict, Vec<Camel>)", "", "hand"), true),
         (Entry::generic::<Vec<Search>>("Vec<Search>", "", "hand"), false),
         (Entry::generic::<Mixed>("Mixed", MIXED_SRC, "hand"), true),
+        (Entry::generic::<Paged>("Paged", PAGED_SRC, "hand"), true),
+        (Entry::generic::<Vec<Paged>>("Vec<Paged>", "", "hand"), true),
         (Entry::generic::<Intl>("Intl", INTL_SRC, "hand"), true),
         (Entry::generic::<IntlOpen>("IntlOpen", INTL_OPEN_SRC, "hand"), true),
         (Entry::generic::<Vec<Intl>>("Vec<Intl>", "", "hand"), true),
